@@ -102,7 +102,7 @@ theorem node_local {e : Env} {nd : Nd} {child : Option Nd} (hD : DNode nd)
           by_cases hb : nd.buf + 1 ≥ B <;> simp [hhd, hb]
       | loop => simp [hk, isLoop] at hnl
       | udf => have := hD.nu; simp [hk, isUdf] at this
-      | pass | post | alert _ | fail _ =>
+      | pass | post | alert _ | fail _ | barrier _ =>
         have hfd := hD.fd
         cases hc : child with
         | none => exact Or.inl ⟨.put, by simp [nodeStep, hnd, hh1, hf, hk, hfd]⟩
@@ -130,7 +130,7 @@ theorem node_local {e : Env} {nd : Nd} {child : Option Nd} (hD : DNode nd)
           refine Or.inl ⟨.take, ?_⟩
           simp only [nodeStep, hnd, hh0, hq, hf, hk]
           by_cases hg : nd.got < K <;> simp [hg]
-        | pass | post | influx _ | loop => exact Or.inl ⟨.take, by simp [nodeStep, hnd, hh0, hq, hf, hk]⟩
+        | pass | post | influx _ | loop | barrier _ => exact Or.inl ⟨.take, by simp [nodeStep, hnd, hh0, hq, hf, hk]⟩
       · have hq0 : nd.inq = 0 := by omega
         have hcl : nd.inClosed = true ∨ (isUdf nd.kind = true ∧ nd.stopping = true) := by
           rcases hpre with h | h | h | h | h
@@ -151,7 +151,7 @@ theorem node_local {e : Env} {nd : Nd} {child : Option Nd} (hD : DNode nd)
           rcases hcl with hcl | ⟨_, hst⟩
           · simp [nodeStep, hnd, hf, exitOk, hk, hh0, hq0, hcl]
           · simp [nodeStep, hnd, hf, exitOk, hk, hh0, hst]
-        | pass | post | influx _ | loop | fail _ =>
+        | pass | post | influx _ | loop | fail _ | barrier _ =>
           rcases hcl with hcl | ⟨hu, _⟩
           · exact Or.inl ⟨.exit, by simp [nodeStep, hnd, hf, exitOk, hk, hh0, hq0, hcl]⟩
           · simp [hk, isUdf] at hu
@@ -351,6 +351,12 @@ theorem progress_or_stopped {cfg : Cfg} {s : State} (hd : DInv s) (hcap : 1 ≤ 
             | false => rfl
             | true => have := hD.ad (by simp [hk, isAlert]) hdn; exact absurd this hh
           exact waitLive i nd (by simp [hph, Ph.idx]) hi hnd
+        | barrier d =>
+          have hnd : nd.done = false := by
+            cases hdn : nd.done with
+            | false => rfl
+            | true => have := hD.bd (by simp [hk, isBarrier]) hdn; exact absurd this hh
+          exact waitLive i nd (by simp [hph, Ph.idx]) hi hnd
         | _ => have := hD.nh (by simp [hk, Kind.hasHelper]); exact absurd this hh
   | wait i =>
     left
@@ -373,6 +379,7 @@ theorem progress_or_stopped {cfg : Cfg} {s : State} (hd : DInv s) (hcap : 1 ≤ 
     cases hk : nd.kind with
     | alert H => exact hD.ad (by simp [hk, isAlert]) hdn
     | influx B => exact hd.joinP j nd hj (by simp [hk, isInflux]) (by simp [hph, joinedBy])
+    | barrier d => exact hD.bd (by simp [hk, isBarrier]) hdn
     | _ => exact hD.nh (by simp [hk, Kind.hasHelper])
 
 theorem dinv_init (kinds : List Kind) (n : Nat) (hk : ∀ k ∈ kinds, isLoop k = false)
